@@ -19,8 +19,12 @@ def render(prog, rng):
     for path, f in prog.items():
         defs = []
         for st, fs in (f["structs"] or {}).items():
-            lines = ["  %d: %s %s %s" % (x["id"], "required" if x["req"] else "optional", x["ty"], x["name"]) for x in fs]
-            defs.append("struct %s {\n%s\n}\n" % (st, "\n".join(lines)))
+            kind = {"V": "union", "E": "exception"}.get(st, "struct")      # MCBreak's V is a union, E an exception
+            if kind == "union":
+                lines = ["  %d: %s %s" % (x["id"], x["ty"], x["name"]) for x in fs]
+            else:
+                lines = ["  %d: %s %s %s" % (x["id"], "required" if x["req"] else "optional", x["ty"], x["name"]) for x in fs]
+            defs.append("%s %s {\n%s\n}\n" % (kind, st, "\n".join(lines)))
         for s, ms in (f["services"] or {}).items():
             defs.append("service %s {\n%s\n}\n" % (s, "\n".join("  void %s()" % m for m in ms)))
         rng.shuffle(defs)                      # the order of definitions in a file must not matter
